@@ -411,6 +411,8 @@ def loop_rule(name, inv, locals_=None, fields=(), elem_cls=None, reverse=False):
                 frame.locals[v] = OptBool(p.fresh_int(v))
             elif kind == "skip":
                 frame.locals.pop(v, None)      # a temporary: not live across iterations
+            elif kind == "custom":
+                frame.locals[v] = cls(p, v)    # contract-supplied havoc
             else:
                 frame.locals[v] = fresh_like(p, v, kind, cls)
         for cls, f in fields:
@@ -492,3 +494,68 @@ def code_of(v):
     if isinstance(v, SBool):
         return z3.If(v.t, z3.IntVal(1), z3.IntVal(0))
     raise Inapplicable(f"no code for {v!r}")
+
+
+# --------------------------------------------------------------------------------------------- dicts
+
+class SymDefaultDictOfLists(SymObject):
+    """collections.defaultdict(list) with symbolic (int-coded) keys: an array key -> z3 Seq, plus the
+    sequence of distinct keys in insertion order (ghost, for iteration / emptiness)."""
+
+    def __init__(self, arr=None):
+        self.arr = arr if arr is not None else z3.K(INT, z3.Empty(SEQ))
+
+    def sym_getitem(self, interp, k):
+        return DictSlot(self, key_code(k))
+
+    def sym_setitem(self, interp, k, v):
+        self.arr = z3.Store(self.arr, key_code(k), as_seq(v))
+        cur().ghost.setdefault("dict_ops", []).append("assign")
+
+    def contains(self, k):
+        raise Inapplicable("membership in a symbolic defaultdict (presence is not modelled)")
+
+    def sym_getattr(self, interp, name):
+        raise Inapplicable(f"defaultdict.{name} on the symbolic model")
+
+
+class DictSlot(SymObject):
+    """d[k] of a SymDefaultDictOfLists: list operations write through to the array"""
+
+    def __init__(self, d, k):
+        self.d, self.k = d, k
+
+    def _get(self):
+        return z3.Select(self.d.arr, self.k)
+
+    def extend(self, xs):
+        self.d.arr = z3.Store(self.d.arr, self.k, z3.Concat(self._get(), as_seq(xs)))
+
+    def append(self, x):
+        self.d.arr = z3.Store(self.d.arr, self.k, z3.Concat(self._get(), as_seq([x])))
+
+    def sym_getattr(self, interp, name):
+        if name in ("extend", "append"):
+            return getattr(self, name)
+        raise Inapplicable(f"list.{name} on a dict slot")
+
+
+class SymKey(SymObject):
+    """an opaque hashable key (e.g. a formatted time string) known by an int code"""
+
+    def __init__(self, t):
+        self.t = t
+
+    def __eq__(self, o):
+        return mkbool(self.t == o.t) if isinstance(o, SymKey) else False
+
+    def __hash__(self):
+        return id(self)
+
+
+def key_code(k):
+    if isinstance(k, SymKey):
+        return k.t
+    if isinstance(k, (int, SInt)) and not isinstance(k, bool):
+        return zint(k)
+    raise Inapplicable(f"dict key {type(k).__name__} has no code")
